@@ -1,12 +1,14 @@
 package nocchk
 
 import (
+	"bytes"
 	"encoding/json"
 	"fmt"
 	"os"
 	"path/filepath"
 	"sort"
 	"strconv"
+	"strings"
 	"testing"
 
 	"github.com/sarchlab/akita/v5/hooking"
@@ -19,23 +21,39 @@ import (
 
 // The checkpoint leg of C29.
 //
-// One case in c29CkptOneIn (in expectation) is, after its plain run, executed a second time
-// inside a real simulation.Simulation (the connector gets the simulation as
-// its registrar, the devices are modeling.Components with a plain-JSON State):
+// One case in c29CkptOneIn (in expectation) is, after its plain run, executed
+// a second time with a checkpoint in the middle (the devices are
+// modeling.Components with a plain-JSON State):
 //
-//	this process    build, schedule, RunUntil(cut), SaveCheckpoint, Terminate
-//	other process   build the same simulation again (nothing scheduled),
-//	                LoadCheckpoint, run until idle
+//	this process    build, schedule, RunUntil(cut), save, tear down
+//	other process   build the same assembly again from the case (nothing
+//	                scheduled), load, run until idle
 //
 // and the C29 oracle is applied to the device-port events recorded before the
 // cut followed by those recorded after the resume. The cut is one of the plain
 // run's own event times (RunUntil(t) handles every event with time <= t, so the
 // cut lies between two time steps).
+//
+// Two ways of saving/loading:
+//
+//	Sim=true   inside a real simulation.Simulation (the connector's registrar
+//	           is the simulation): Simulation.SaveCheckpoint / LoadCheckpoint.
+//	           Building and terminating a Simulation costs 100-300 ms (SQLite
+//	           recorder tables), twice per case, so this is 1 in c29SimOneIn
+//	           of the checkpoint cases.
+//	Sim=false  entity level: the harness' registrar keeps the same inventory a
+//	           Simulation keeps (engine, ID generator, then every component,
+//	           port and connection in registration order) and does what
+//	           Simulation.Save/LoadCheckpoint do - every entity writes/reads
+//	           its own payload through its SaveCheckpoint/LoadCheckpoint, the
+//	           saved and the rebuilt entity sets must be equal - without the
+//	           archive file and without the simulation's recorders.
 
 const (
-	c29CkptOneIn    = 5
+	c29CkptOneIn    = 3
+	c29SimOneIn     = 8
 	c29BuildID      = "verif-nocchk-c29"
-	c29WorkerCases  = 12 // resume jobs served by one child process before it is replaced
+	c29WorkerCases  = 40 // resume jobs served by one child process before it is replaced
 	sigCkptDiffers  = "ckpt-vs-uninterrupted:"
 	sigCkptPrefix   = "ckpt:"
 	c29CkptMaxSteps = 1 << 20
@@ -44,13 +62,19 @@ const (
 // ckptOneIn: every n-th case (in expectation) gets a checkpoint leg; the
 // environment variable VERIF_C29_CKPT_ONE_IN overrides the default (0 = none;
 // used to measure the cost of the leg).
-func ckptOneIn() int {
-	if v := os.Getenv("VERIF_C29_CKPT_ONE_IN"); v != "" {
+func ckptOneIn() int { return envInt("VERIF_C29_CKPT_ONE_IN", c29CkptOneIn) }
+
+// simOneIn: every n-th checkpoint case runs in a real simulation.Simulation
+// (VERIF_C29_SIM_ONE_IN overrides; 1 = all of them).
+func simOneIn() int { return max(1, envInt("VERIF_C29_SIM_ONE_IN", c29SimOneIn)) }
+
+func envInt(name string, def int) int {
+	if v := os.Getenv(name); v != "" {
 		if n, err := strconv.Atoi(v); err == nil {
 			return n
 		}
 	}
-	return c29CkptOneIn
+	return def
 }
 
 // ckptSpec: where to cut and how the simulation is assembled.
@@ -65,6 +89,8 @@ type ckptSpec struct {
 	// Hookable side, so the simulation's idle DBTracer is not attached; false =
 	// the default registration every simulator uses.
 	Plain bool `json:"plain"`
+	// Sim: real simulation.Simulation (else entity-level save/load, see above).
+	Sim bool `json:"sim"`
 }
 
 // partialCount: messages of which some but not all flits arrived, over all
@@ -140,38 +166,124 @@ type c29ResumeResult struct {
 	Pid      int        `json:"pid"`
 }
 
-func closeSim(sim *simulation.Simulation, dir, base string) {
-	if sim == nil {
+// ckWorld is one built assembly that can be saved and loaded.
+type ckWorld struct {
+	sim       *simulation.Simulation // nil: entity level
+	reg       *capReg
+	dir, base string
+}
+
+func (w *ckWorld) close() {
+	if w == nil || w.sim == nil {
 		return
 	}
-	sim.Terminate()
-	m, _ := filepath.Glob(filepath.Join(dir, base+"*"))
+	w.sim.Terminate()
+	m, _ := filepath.Glob(filepath.Join(w.dir, w.base+"*"))
 	for _, f := range m {
 		_ = os.Remove(f)
 	}
 }
 
-// c29SimSetup is c29Setup inside a fresh simulation.Simulation.
-func c29SimSetup(c c29Case, dir, base string) (sim *simulation.Simulation, res c29Result, sig, msg string) {
+// c29WorldSetup is c29Setup inside a fresh simulation.Simulation or on a
+// registrar that keeps the entity inventory.
+func c29WorldSetup(c c29Case, dir, base string) (w *ckWorld, res c29Result, sig, msg string) {
+	w = &ckWorld{dir: dir, base: base}
 	res, sig, msg = c29Setup(c, func() *capReg {
-		sim = simulation.MakeBuilder().WithoutMonitoring().
-			WithOutputFileName(filepath.Join(dir, base)).Build()
-		return newSimReg(sim, c.Ckpt.Plain)
+		if c.Ckpt.Sim {
+			w.sim = simulation.MakeBuilder().WithoutMonitoring().
+				WithOutputFileName(filepath.Join(dir, base)).Build()
+			w.reg = newSimReg(w.sim, c.Ckpt.Plain)
+		} else {
+			w.reg = newInvReg()
+		}
+		return w.reg
 	})
-	return sim, res, sig, msg
+	return w, res, sig, msg
+}
+
+type entityPayload struct {
+	Name string `json:"name"`
+	Data string `json:"data"`
+}
+
+type entityFile struct {
+	BuildID  string          `json:"build_id"`
+	Entities []entityPayload `json:"entities"`
+}
+
+func (w *ckWorld) save(path string) error {
+	if w.sim != nil {
+		return w.sim.SaveCheckpoint(path, c29BuildID)
+	}
+	out := entityFile{BuildID: c29BuildID}
+	for _, e := range w.reg.inv {
+		cp, ok := e.(checkpointable)
+		if !ok {
+			return fmt.Errorf("entity %q (%T) has no checkpoint serializer", e.Name(), e)
+		}
+		var buf bytes.Buffer
+		if err := cp.SaveCheckpoint(&buf); err != nil {
+			return fmt.Errorf("save entity %q: %w", e.Name(), err)
+		}
+		out.Entities = append(out.Entities, entityPayload{Name: e.Name(), Data: buf.String()})
+	}
+	b, err := json.Marshal(out)
+	if err != nil {
+		return err
+	}
+	return os.WriteFile(path, b, 0o644)
+}
+
+func (w *ckWorld) load(path string) error {
+	if w.sim != nil {
+		return w.sim.LoadCheckpoint(path, c29BuildID)
+	}
+	b, err := os.ReadFile(path)
+	if err != nil {
+		return err
+	}
+	var in entityFile
+	if err := json.Unmarshal(b, &in); err != nil {
+		return err
+	}
+	saved := map[string]string{}
+	for _, e := range in.Entities {
+		if _, dup := saved[e.Name]; dup {
+			return fmt.Errorf("duplicate entity %q", e.Name)
+		}
+		saved[e.Name] = e.Data
+	}
+	rebuilt := map[string]bool{}
+	for _, e := range w.reg.inv {
+		rebuilt[e.Name()] = true
+		if _, found := saved[e.Name()]; !found {
+			return fmt.Errorf("rebuilt entity %q is missing from the checkpoint", e.Name())
+		}
+	}
+	for name := range saved {
+		if !rebuilt[name] {
+			return fmt.Errorf("saved entity %q is not rebuilt", name)
+		}
+	}
+	for _, e := range w.reg.inv {
+		if err := e.(checkpointable).LoadCheckpoint(strings.NewReader(saved[e.Name()])); err != nil {
+			return fmt.Errorf("load entity %q: %w", e.Name(), err)
+		}
+	}
+	return nil
 }
 
 // c29ResumeRun: rebuild, load, run until idle. Runs in the worker process.
 func c29ResumeRun(j c29ResumeJob) (out c29ResumeResult) {
 	out.Pid = os.Getpid()
-	sim, res, sig, msg := c29SimSetup(j.Case, j.Dir, "load")
-	defer closeSim(sim, j.Dir, "load")
+	w, res, sig, msg := c29WorldSetup(j.Case, j.Dir, "load")
+	defer w.close()
 	if sig != "" {
 		out.Sig, out.Msg = "rebuild:"+sig, msg
 		return
 	}
 	var err error
-	if ok, psig, pmsg := guard(func() { err = sim.LoadCheckpoint(j.Path, c29BuildID) }); !ok {
+	if ok, psig, pmsg := guard(func() { err = w.load(j.Path) }); !ok {
 		out.Sig, out.Msg = "load:"+psig, pmsg
 		return
 	}
@@ -251,16 +363,19 @@ func (k *ckptLeg) run(f kit.Failer, c c29Case, plain c29Result, plainEvents []dl
 	}
 	k.n++
 	path := filepath.Join(k.dir, "cut.tar.gz")
-	reg := "default-registration"
-	if c.Ckpt.Plain {
-		reg = "no-tracer-hooks"
+	reg := "entity-level"
+	if c.Ckpt.Sim {
+		reg = "simulation.Simulation/default-registration"
+		if c.Ckpt.Plain {
+			reg = "simulation.Simulation/no-tracer-hooks"
+		}
 	}
 
 	// --- before the cut: in a simulation, in this process ---
-	sim, res, sig, msg := c29SimSetup(c, k.dir, "save")
+	w, res, sig, msg := c29WorldSetup(c, k.dir, "save")
 	if sig != "" {
-		closeSim(sim, k.dir, "save")
-		s.Fail(f, c, sigCkptPrefix+sig, "building the same case in a simulation.Simulation (%s): %s", reg, msg)
+		w.close()
+		s.Fail(f, c, sigCkptPrefix+sig, "building the same case for the checkpoint leg (%s): %s", reg, msg)
 		return nil, false
 	}
 	for _, a := range res.built.agents {
@@ -269,9 +384,9 @@ func (k *ckptLeg) run(f kit.Failer, c c29Case, plain c29Result, plainEvents []dl
 	var runErr, saveErr error
 	gok, gsig, gmsg := guard(func() { runErr = res.reg.engine.RunUntil(timing.VTimeInPicoSec(cut)) })
 	if !gok || runErr != nil {
-		closeSim(sim, k.dir, "save")
+		w.close()
 		if !gok {
-			s.Fail(f, c, sigCkptPrefix+"run:"+gsig, "in a simulation.Simulation (%s), before the cut at %d ps: %s", reg, cut, gmsg)
+			s.Fail(f, c, sigCkptPrefix+"run:"+gsig, "checkpoint leg (%s), before the cut at %d ps: %s", reg, cut, gmsg)
 			return nil, false
 		}
 		f.Fatalf("harness: RunUntil: %v", runErr)
@@ -289,8 +404,8 @@ func (k *ckptLeg) run(f kit.Failer, c c29Case, plain c29Result, plainEvents []dl
 		buffered += p.NumIncoming() + p.NumOutgoing()
 	}
 	pre := toDlv(res.rec.events)
-	gok, gsig, gmsg = guard(func() { saveErr = sim.SaveCheckpoint(path, c29BuildID) })
-	closeSim(sim, k.dir, "save")
+	gok, gsig, gmsg = guard(func() { saveErr = w.save(path) })
+	w.close()
 	if !gok {
 		s.Fail(f, c, sigCkptPrefix+"save:"+gsig, "SaveCheckpoint at %d ps (%s): %s", cut, reg, gmsg)
 		return nil, false
@@ -313,7 +428,7 @@ func (k *ckptLeg) run(f kit.Failer, c c29Case, plain c29Result, plainEvents []dl
 	if post.Pid == os.Getpid() {
 		f.Fatalf("harness: the resume leg ran in the saving process")
 	}
-	where := fmt.Sprintf("after a checkpoint at %d ps (%d partially reassembled messages, %d flits queued in endpoints, %d messages buffered in ports, %d not yet sent; %s) and a resume in a rebuilt simulation: ",
+	where := fmt.Sprintf("after a checkpoint at %d ps (%d partially reassembled messages, %d flits queued in endpoints, %d messages buffered in ports, %d not yet sent; %s) and a resume in a rebuilt assembly in another process: ",
 		cut, partial, flitsQueued, buffered, unsentAtCut, reg)
 	if post.Sig != "" {
 		s.Fail(f, c, sigCkptPrefix+post.Sig, "%s%s", where, post.Msg)
